@@ -24,50 +24,70 @@ def main(tier):
                    "(None, Some(1), 1972) or the one computed by the calendar library; only the public constructor "
                    "forwards a caller-chosen one")
     n = 0
-    for f in rs.fns:
-        if f.hir is None or f.path.endswith("::new_with_overflow") or f.kind == "Closure":
-            continue
-        txt = str(f.hir)
-        if "PlainYearMonth::new_with_overflow" not in txt and "PlainMonthDay::new_with_overflow" not in txt:
-            continue
-        ev = H.Evaluator(fx)
-        ev.inline = lambda p: p.startswith("temporal_rs::error::")
-        try:
-            paths = ev.paths(f, [H.Sym("param", (p["name"],)) for p in f.params], max_paths=300)
-        except (H.Budget, H.Panic):
-            run.ok(rule, f.path + "/paths", "too many paths: not decided", f.loc, nontrivial=False)
-            continue
-        seen = set()
-        for dec, res, tr in paths:
-            for c in tr:
-                fn = str(c.parts[0])
-                if fn.endswith("PlainYearMonth::new_with_overflow") and len(c.parts[1]) > 2:
-                    ref, what = c.parts[1][2], "reference day"
-                elif fn.endswith("PlainMonthDay::new_with_overflow") and len(c.parts[1]) > 4:
-                    ref, what = c.parts[1][4], "reference year"
-                else:
-                    continue
-                sref = show(ref)
-                if (what, sref) in seen:
-                    continue
-                seen.add((what, sref))
-                n += 1
-                inner = ref.args[0] if isinstance(ref, H.V) and ref.path == H.SOME and ref.args else ref
-                is_none = isinstance(ref, H.V) and ref.path == H.NONE
-                const_ok = is_none or inner in (1, 1972)
-                from_icu = any(isinstance(y, H.Sym) and y.what == "call" and
-                               any(w in str(y.parts[0]) for w in ("icu_calendar", "date_to_iso", "day_of_month", "extended_year"))
-                               for y in walk(ref))
-                caller = sorted(set(params_in(ref)) - {"self"})
-                key = "%s/%s#%d" % (f.path, what.replace(" ", "-"), len(seen))
-                if not (const_ok or from_icu) and not caller:
-                    run.ok(rule, key, "%s is `%s`: neither a constant nor recognisably computed by the calendar library: not decided" %
-                           (what, sref[:60]), f.loc, nontrivial=False)
-                    continue
-                run.check(const_ok or (from_icu and True), rule, key,
-                          "%s is %s" % (what, "None" if is_none else "the constant %s" % inner if const_ok else "computed by ICU"),
-                          "%s passes a %s derived from %s (`%s`) to %s; a year-month/month-day built from fields must carry the "
-                          "canonical hidden reference" % (f.name, what, caller, sref[:70], fn.rsplit("::", 2)[-2]), f.loc)
+    # constructors: (path suffix) -> (index of the hidden-reference argument, what it is, type name).  A function that hands one
+    # of its OWN parameters on unchanged in that position is itself a constructor (a convenience wrapper of the public
+    # constructor): the obligation moves to its callers, which are examined in the next round.
+    ctors = {"PlainYearMonth::new_with_overflow": (2, "reference day", "PlainYearMonth"),
+             "PlainMonthDay::new_with_overflow": (4, "reference year", "PlainMonthDay")}
+    done = {}
+    for _round in range(6):
+        grew = False
+        for f in rs.fns:
+            if f.hir is None or f.kind == "Closure" or any(f.path.endswith(c) for c in ctors):
+                continue
+            txt = str(f.hir)
+            todo = [c for c in ctors if c in txt and c not in done.get(f.path, ())]
+            if not todo:
+                continue
+            done.setdefault(f.path, set()).update(todo)
+            ev = H.Evaluator(fx)
+            ev.inline = lambda p: p.startswith("temporal_rs::error::")
+            try:
+                paths = ev.paths(f, [H.Sym("param", (p["name"],)) for p in f.params], max_paths=300)
+            except (H.Budget, H.Panic):
+                run.ok(rule, f.path + "/paths", "too many paths: not decided", f.loc, nontrivial=False)
+                continue
+            seen = set()
+            pnames = [p["name"] for p in f.params]
+            for dec, res, tr in paths:
+                for c in tr:
+                    fn = str(c.parts[0])
+                    hit = [ctors[k] for k in todo if fn.endswith(k)]
+                    if not hit or len(c.parts[1]) <= hit[0][0]:
+                        continue
+                    ref, what, tyname = c.parts[1][hit[0][0]], hit[0][1], hit[0][2]
+                    sref = show(ref)
+                    if (what, sref) in seen:
+                        continue
+                    seen.add((what, sref))
+                    n += 1
+                    inner = ref.args[0] if isinstance(ref, H.V) and ref.path == H.SOME and ref.args else ref
+                    is_none = isinstance(ref, H.V) and ref.path == H.NONE
+                    const_ok = is_none or inner in (1, 1972)
+                    from_icu = any(isinstance(y, H.Sym) and y.what == "call" and
+                                   any(w in str(y.parts[0]) for w in ("icu_calendar", "date_to_iso", "day_of_month", "extended_year"))
+                                   for y in walk(ref))
+                    caller = sorted(set(params_in(ref)) - {"self"})
+                    key = "%s/%s#%d%s" % (f.path, what.replace(" ", "-"), len(seen), "" if _round == 0 else "/r%d" % _round)
+                    if isinstance(ref, H.Sym) and ref.what == "param" and ref.parts[0] in pnames and ref.parts[0] != "self":
+                        # its own parameter, unchanged: a constructor in its own right
+                        suffix = f.path.split("::", 1)[-1]
+                        if suffix not in ctors:
+                            ctors[suffix] = (pnames.index(ref.parts[0]), what, tyname)
+                            grew = True
+                        run.ok(rule, key, "%s hands its own parameter `%s` on as the %s: a constructor itself, its callers are examined"
+                               % (f.name, ref.parts[0], what), f.loc, nontrivial=False)
+                        continue
+                    if not (const_ok or from_icu) and not caller:
+                        run.ok(rule, key, "%s is `%s`: neither a constant nor recognisably computed by the calendar library: not decided" %
+                               (what, sref[:60]), f.loc, nontrivial=False)
+                        continue
+                    run.check(const_ok or (from_icu and True), rule, key,
+                              "%s is %s" % (what, "None" if is_none else "the constant %s" % inner if const_ok else "computed by ICU"),
+                              "%s passes a %s derived from %s (`%s`) to %s; a year-month/month-day built from fields must carry the "
+                              "canonical hidden reference" % (f.name, what, caller, sref[:70], fn.rsplit("::", 2)[-2]), f.loc)
+        if not grew:
+            break
     if n < 3:
         run.anchor_missing(rule, "constructor-calls", "only %d internal constructor calls found (expected >= 3)" % n)
     # the day resolver ignores `day` for year-months
